@@ -872,7 +872,126 @@ func restoredSessions(r *monitor.Run) {
 	wg.Wait()
 }
 
+// willTimerVsResume: the timer of a delayed will has fired and its goroutine is on its way to the broker's lock (held at
+// the hand-over point will.before_lock) when the client comes back, is terminated through the API, or is taken over.
+// Whoever holds the lock then tells the will what to do; nobody is left to listen, and that must not stop the broker.
+func willTimerVsResume(r *monitor.Run) {
+	for vi, how := range []string{"resume", "terminate", "clean_start"} {
+		yield.Enable(r.Seed, false)
+		entered, release := make(chan struct{}), make(chan struct{})
+		var once, rel sync.Once
+		free := func() { rel.Do(func() { close(release) }) }
+		yield.Observe(func(site string) {
+			if site == "will.before_lock" {
+				once.Do(func() {
+					close(entered)
+					select {
+					case <-release:
+					case <-time.After(40 * time.Second):
+					}
+				})
+			}
+		})
+		func() {
+			defer yield.Observe(nil)
+			defer free()
+			b, err := broker.Start(broker.Options{})
+			if err != nil {
+				r.Inconclusive(err.Error())
+				return
+			}
+			stopped := false
+			defer func() {
+				if !stopped {
+					free()
+					b.Stop(10 * time.Second)
+				}
+			}()
+			id := fmt.Sprintf("will-vs-%d", vi)
+			e, d := uint32(60), uint32(1)
+			attach := func(clean bool, timeout time.Duration) (*wire.Client, error) {
+				c, err := wire.Dial(id, b.Addr, mqttx.V5)
+				if err != nil {
+					return nil, err
+				}
+				ack, err := c.Connect(&mqttx.Packet{ClientID: id, CleanStart: clean, Props: &mqttx.Props{SessionExpiry: &e},
+					WillFlag: true, WillTopic: "will/" + id, WillPayload: []byte("w"), WillQoS: 1, WillProps: &mqttx.Props{WillDelay: &d}}, timeout)
+				if err != nil {
+					c.Close()
+					return nil, err
+				}
+				if ack.Code != 0 {
+					c.Close()
+					return nil, fmt.Errorf("connack 0x%02x", ack.Code)
+				}
+				return c, nil
+			}
+			c1, err := attach(true, reqTimeout)
+			if err != nil {
+				r.Inconclusive(err.Error())
+				return
+			}
+			from := b.Log.Len()
+			c1.Close()
+			if _, ok := b.Log.Wait(from, func(ev broker.Event) bool { return ev.Kind == "OnClosed" && ev.Client == id }, 10*time.Second); !ok {
+				r.Inconclusive("willTimerVsResume: OnClosed not observed")
+				return
+			}
+			select {
+			case <-entered: // the 1 s timer has fired, the goroutine is between its select and the lock
+			case <-time.After(15 * time.Second):
+				r.Inconclusive("willTimerVsResume: the will goroutine never reached will.before_lock")
+				return
+			}
+			r.Eval(1)
+			done := make(chan error, 1)
+			go func() {
+				switch how {
+				case "terminate":
+					b.Srv.ClientService().TerminateSession(id)
+					done <- nil
+				default:
+					c2, err := attach(how == "clean_start", 20*time.Second)
+					if c2 != nil {
+						defer c2.Close()
+					}
+					done <- err
+				}
+			}()
+			select {
+			case err := <-done:
+				if err == wire.ErrTimeout {
+					r.Violation("will_timer.request_unanswered:"+how, "a CONNECT for a client whose delayed will's timer had just fired got no CONNACK within 20 s", map[string]any{"goroutines": monitor.GoroutineDump("gmqtt/server")})
+					return
+				}
+			case <-time.After(25 * time.Second):
+				r.Violation("will_timer.api_call_hangs:"+how, how+" for a client whose delayed will's timer had just fired did not return within 25 s", map[string]any{"goroutines": monitor.GoroutineDump("gmqtt/server")})
+				return
+			}
+			// the broker still serves others
+			cc, err := wire.Dial("canary", b.Addr, mqttx.V311)
+			if err == nil {
+				_, err = cc.Connect(&mqttx.Packet{ClientID: "canary-" + id, CleanStart: true}, 20*time.Second)
+				cc.Close()
+			}
+			if err != nil {
+				r.Violation("will_timer.broker_stuck:"+how, "after "+how+" for a client whose delayed will's timer had just fired a fresh client is not served: "+err.Error(), map[string]any{"goroutines": monitor.GoroutineDump("gmqtt/server")})
+				return
+			}
+			free()
+			stopped = true
+			if err := b.Stop(20 * time.Second); err != nil {
+				r.Violation("will_timer.stop:"+how, "Stop: "+err.Error(), nil)
+				return
+			}
+			r.Count("will_timer_vs_lock_holder_cases", 1)
+			r.Nontrivial("will-timer|" + how)
+		}()
+	}
+}
+
 func Run(r *monitor.Run) {
+	willTimerVsResume(r)
 	refusedRequestV3(r)
 	stopDuringTeardown(r)
 	restoredSessions(r)
